@@ -23,7 +23,7 @@ func init() {
 	assumeSite("C12-DELEG", "runtime.(TempVM).ThrowControl#delegates:ThrowControl", "the uncaught-exception handler is process-wide by design (SetExceptionHandler delegates to the base VM); it runs the script's handler closure, not request code")
 	register(&PropDef{
 		ID:          "C12",
-		Patterns:    []string{"./runtime"},
+		Patterns:    []string{"./runtime", "./std/php"},
 		Explanation: "A request-scoped TempVM must keep its definitions to itself and still resolve everything the base VM has. Decided structurally: (OWN) TempVM.AddClass/AddInterface/AddFunc write only the receiver's own tables; (DELEG) a TempVM method delegates to a base-VM method only if no path from that base method (CHA call graph over the whole program) reaches (*VM).AddClass/AddInterface/AddFunc — otherwise definitions made on behalf of the TempVM land in the base VM; the intentional process-wide registrations are listed; (PARSER) the parser a TempVM parses with is the clone bound to it by PrepareParse; (READ) every TempVM lookup consults the base VM on some path; (ESC) the added-* tables are not stored anywhere else. Histories (what an earlier request did) are not enumerated.",
 		Assumptions: []string{
 			"call graph: VTA refined from CHA over go/ssa (sound for the program as loaded, over-approximate: it can only add delegation edges to the forbidden set, never hide one)",
@@ -38,7 +38,38 @@ func init() {
 	})
 }
 
+// c12FunctionObjects: the objects behind the built-in functions (types of std/php with a Call method) are
+// registered once on the base VM and shared with every request-scoped VM. They keep nothing between
+// calls: a memo of what one request's VM answered (class_exists, function_exists, a resolved class) is an
+// answer given to all the others. One obligation per function type; a store into a field of the receiver
+// while it is called — assignment, ++, delete, a mutating method of a sync/atomic container held in a
+// field — is the violation.
+func c12FunctionObjects(r *Run) {
+	sp := r.pkg("std/php")
+	if sp == nil {
+		return
+	}
+	r.curRule = "C12-ESC"
+	writes, examined := evalClosureFieldWrites(sp)
+	bad := map[string]bool{}
+	for _, w := range writes {
+		bad[w.typeName] = true
+		r.bad("std/php.("+w.typeName+")#remembers:"+w.field, w.pos, "the function object stores "+w.field+" while it is called: it is shared by the base VM and every request-scoped VM, so what one request's VM answered (or defined) is handed to all the others")
+	}
+	names := []string{}
+	for tn := range examined {
+		if !bad[tn] {
+			names = append(names, tn)
+		}
+	}
+	sort.Strings(names)
+	for _, tn := range names {
+		r.ok("std/php.("+tn+")#stateless", examined[tn], "the function object keeps nothing between calls")
+	}
+}
+
 func c12Run(r *Run) {
+	c12FunctionObjects(r)
 	pkg := r.pkg("runtime")
 	if pkg == nil {
 		return
